@@ -296,6 +296,10 @@ func init() {
 				c08Copies(c, cs.PRF, c08Ops()[cs.Op:cs.Op+1])
 				return
 			}
+			if cs.Op == -3 {
+				c08NonceValues(c)
+				return
+			}
 			if cs.Op == -2 {
 				c08FailedThenRetry(c, cs.PRF, cs.Depth, c08Op{encrLen: cs.Hist[0], integIdx: cs.Hist[1], nonce: univ.Pat(32, 4), name: "derive"})
 				return
@@ -408,6 +412,38 @@ func c08FailedThenRetry(c *engine.Ctx, prfIdx, k int, op c08Op) {
 	c.Count("retries_after_refused_derivation", 1)
 }
 
+// c08NonceValues: nonce strings with particular contents — constant octets, two equal halves (Nr echoing Ni, a peer
+// with a stuck random source), one half zero — for every PRF and four ESP configurations. RFC 7296 2.17 takes Ni | Nr
+// as an octet string whatever it contains.
+func c08NonceValues(c *engine.Ctx) {
+	var ns [][]byte
+	for _, n := range []int{2, 16, 32, 64, 96, 512} {
+		half := univ.Pat(n/2, n)
+		ns = append(ns, univ.Fill(n, 0), univ.Fill(n, 0xff), univ.Fill(n, 0x5a), append(append([]byte(nil), half...), half...),
+			append(append([]byte(nil), half...), univ.Fill(n/2, 0)...), append(univ.Fill(n/2, 0), half...))
+	}
+	for prfIdx := 0; prfIdx < 3; prfIdx++ {
+		if !c.Mine() {
+			continue
+		}
+		for ni, nonce := range ns {
+			for _, cfg := range [][2]int{{16, -1}, {32, 2}, {24, 0}, {16, 1}} {
+				c.Evals++
+				c.Transitions++
+				sa, skd := c08Fresh(prfIdx, 1)
+				op := c08Op{encrLen: cfg[0], integIdx: cfg[1], nonce: nonce, name: fmt.Sprintf("derive(aes%d,integ%d,nonce value #%d of %d octets)", cfg[0]*8, cfg[1], ni, len(nonce))}
+				got, err := c08Apply(sa, op)
+				if err != nil || got != c08Want(prfIdx, skd, op) {
+					c.Violate("keymat/nonce-values", fmt.Sprintf("prf %s, %s (%x…) from a fresh SA: got %s (err %v), RFC 7296 2.17 gives %s", ref.PRFs[prfIdx].Digest, op.name, trunc(nonce, 16), trs(got), err, trs(c08Want(prfIdx, skd, op))),
+						c08Case{PRF: prfIdx, Pat: 1, Op: -3, Depth: ni, Hist: []int{cfg[0], cfg[1]}})
+					return
+				}
+				c.DistinctS("values" + got)
+			}
+		}
+	}
+}
+
 // c08Sweep: every nonce length 0..300 from a fresh SA, all PRFs, four ESP configurations.
 func c08Sweep(c *engine.Ctx) {
 	for prfIdx := 0; prfIdx < 3; prfIdx++ {
@@ -435,6 +471,7 @@ func c08Sweep(c *engine.Ctx) {
 }
 
 func runC08(c *engine.Ctx) {
+	c08NonceValues(c)
 	c08Sweep(c)
 	for prfIdx := 0; prfIdx < 3; prfIdx++ {
 		for k := 0; k < 8; k++ {
